@@ -230,7 +230,10 @@ def rule_e(repo, chk):
                'a directory is passed over without the load: %s' % c.describe(p) if p else '')
     for x in loads:
         st = repo.enclosing_stmt(x)
-        chk.ob('C20.e', isinstance(st, ast.Return) and st.value is x, x, 'the loaded project is returned unchanged')
+        ok = isinstance(st, ast.Return) and st.value is x
+        if not ok and isinstance(st, ast.Assign) and st.value is x and isinstance(st.targets[0], ast.Name):
+            ok = any(isinstance(r.value, ast.Name) and r.value.id == st.targets[0].id for r in stmts_in(f, ast.Return))
+        chk.ob('C20.e', ok, x, 'the loaded project is returned unchanged')
 
 
 def describe(chk):
